@@ -169,6 +169,8 @@ case("from-bban-table-digits", "C02", I, "        checksum_algo = ISO7064_mod97_
      '        checksum_algo = ISO7064_mod97_10()\n        if country_code == "PT":\n            return cls("PT50" + bban, allow_invalid=allow_invalid, validate_bban=validate_bban)\n        return cls(', V, "R02-agree")
 case("cz-accepts-undefined", "C17", "schwifty/checksum/czech_republic.py", "        Component.BRANCH_CODE,\n        Component.ACCOUNT_CODE,", "        Component.ACCOUNT_TYPE,\n        Component.ACCOUNT_CODE,", V, "R17-algo")
 case("nochecksum-returns-zero", "C09", B, "    if algo is None:\n        return \"\"", "    if algo is None:\n        return \"0\"", V, "R09-converse")
+case("module-object-lazy-flag", "C14", CK, "algorithms: dict[str, Algorithm] = {}",
+     "class _Table(dict):  # type: ignore[type-arg]\n    _ready = False\n\n    def touch(self) -> None:\n        self._ready = True\n\n\nalgorithms: dict[str, Algorithm] = _Table()", V, "module-objects")
 
 json.dump({"cases": CASES}, open(os.path.join(HERE, "corpus.json"), "w"), indent=1)
 print(len(CASES), "cases")
